@@ -507,6 +507,12 @@ func (h *Harness) compareWire(cs Case, o Obs, replay map[string]interface{}) {
 
 func main() {
 	r := vlib.NewRun("C18")
+	// client/network dumps "<hash>.bin" files of refused compact blocks into the current directory:
+	// run from a scratch directory so that nothing lands in /verif
+	if d, err := os.MkdirTemp("", "vc18cwd"); err == nil {
+		os.Chdir(d)
+		defer os.RemoveAll(d)
+	}
 	e := NewEnv(r.Rng.Fork())
 	defer e.Close()
 	rn := NewRunner(e)
